@@ -46,6 +46,7 @@ def run(ctx, rep, tier):
     rep.rule("PV", "rows: Legalizer on computeRows(); Tetris/Abacus on remainingRows(); remainingRows subtracts exactly the placed cells", 4)
     rep.rule("TG", "Tetris advances a segment's free position only when the cell's x-range overlaps that segment", 1)
     rep.rule("JX", "parallel movable-cell index advances exactly once per movable cell", 2)
+    rep.rule("SK", "row lookups by binary search use the key the rows are sorted by", 2)
     rep.rule("DS", "free-space / geometry queries keep no stale derived state (with positive control)", 2)
     c10.check_p1(ctx, rep)
     # W1
@@ -66,6 +67,8 @@ def run(ctx, rep, tier):
     check_pv(ctx, rep)
     check_tg(ctx, rep)
     check_jx(ctx, rep)
+    from .common import check_sort_keys
+    check_sort_keys(ctx, rep, "SK", [f_ for f_ in prog.funcs.values() if f_.cls in (CQ + "LegalizerBase", CQ + "DetailedPlacement")])
     n = check_derived_state(ctx, rep, "DS", prog)
     rep.holds("DS", "src/**", None, "const member functions examined for own-member writes", "%d const methods" % n)
     # positive control of the zero-instance rule
